@@ -412,19 +412,45 @@ func Judge(c Case, run *Run, r *ev.Result) {
 	ops := run.Hist[run.ProEnd:]
 	ok, witness, explored := Linearizable(st.m, st.slots, ops)
 	r.Count("lin_states", int64(explored))
-	if !ok && ev.KnownOpen(KnownUnpinnedRead) {
-		// known finding: a read resolves a version and then fetches its content without pinning it; if
-		// exactly that content was removed meanwhile, the read's result is excused (and nothing else)
-		excused := unpinnedReads(run, ops)
-		if len(excused) > 0 {
-			wild := append([]HOp(nil), ops...)
-			for _, i := range excused {
-				wild[i].Wild = true
+	if !ok {
+		// known findings: each has a signature evaluated over the executed trace; the reads it names
+		// become wildcards in the search, nothing else is excused
+		type kf struct {
+			id   string
+			wild []int
+		}
+		var kfs []kf
+		if ev.KnownOpen(KnownUnpinnedRead) {
+			if w := unpinnedReads(run, ops); len(w) > 0 {
+				kfs = append(kfs, kf{KnownUnpinnedRead, w})
 			}
-			if ok2, _, _ := Linearizable(st.m, st.slots, wild); ok2 {
-				r.KnownHits = append(r.KnownHits, KnownUnpinnedRead)
+		}
+		if ev.KnownOpen(KnownBeginVsCollector) {
+			if w := beginVsCollector(run, ops); len(w) > 0 {
+				kfs = append(kfs, kf{KnownBeginVsCollector, w})
+			}
+		}
+		try := func(sel []kf) bool {
+			wild := append([]HOp(nil), ops...)
+			for _, k := range sel {
+				for _, i := range k.wild {
+					wild[i].Wild = true
+				}
+			}
+			ok2, _, _ := Linearizable(st.m, st.slots, wild)
+			return ok2
+		}
+		for _, k := range kfs {
+			if !ok && try([]kf{k}) {
+				r.KnownHits = append(r.KnownHits, k.id)
 				ok = true
 			}
+		}
+		if !ok && len(kfs) > 1 && try(kfs) {
+			for _, k := range kfs {
+				r.KnownHits = append(r.KnownHits, k.id)
+			}
+			ok = true
 		}
 	}
 	if !ok {
@@ -474,6 +500,36 @@ var _ = io.EOF
 
 // KnownUnpinnedRead is the id of the known finding "reads do not pin the content they resolved".
 const KnownUnpinnedRead = "C06-unpinned-read"
+
+// KnownBeginVsCollector is the id of the known finding "Begin draws its number before it registers".
+const KnownBeginVsCollector = "C08-begin-vs-collector"
+
+// beginVsCollector returns the indices of the reads of snapshot transactions whose Begin overlapped
+// a removal of content by another goroutine (a collector or cleaner run): such a transaction may
+// have lost the versions its snapshot needs.
+func beginVsCollector(run *Run, ops []HOp) []int {
+	var out []int
+	for _, b := range ops {
+		if b.K != "begin" || b.Lvl < 2 {
+			continue
+		}
+		hit := false
+		for _, e := range run.Events {
+			if e.G != b.G && e.T >= b.Call && e.T <= b.Ret && (e.Kind == "os.remove" || e.Kind == "badger.delete") {
+				hit = true
+			}
+		}
+		if !hit {
+			continue
+		}
+		for i, o := range ops {
+			if o.Slot == b.Slot && (o.K == "get" || o.K == "keys") {
+				out = append(out, i)
+			}
+		}
+	}
+	return out
+}
 
 func contentID(arg string) string {
 	if i := strings.LastIndex(arg, "/"); i >= 0 {
